@@ -93,7 +93,7 @@ class Gen:
             (3, self.g_leaf), (4, self.g_pipe), (3, self.g_comma), (5, self.g_bind), (3, self.g_pattern),
             (5, self.g_def), (4, self.g_call), (2, self.g_if), (2, self.g_try), (2, self.g_label),
             (3, self.g_fold), (1, self.g_alt), (2, self.g_limit), (1, self.g_paren_chain),
-            (3, self.g_nest), (3, self.g_deep_pattern),
+            (3, self.g_nest), (3, self.g_deep_pattern), (2, self.g_label_tailrec), (2, self.g_opt_chain),
         ]
         if ty == "n":
             opts += [(5, self.g_math), (2, self.g_neg), (2, self.g_index), (1, self.g_length), (1, self.g_add)]
@@ -481,6 +481,76 @@ class Gen:
         if ty == "n":
             return t
         return A.pipe(("call", "limit", (A.num(6), t)), self.term(ctx.with_(tin="n"), ty, 2))
+
+    # labels bound outside, inside and in filter arguments of tail-recursive definitions that have been
+    # re-entered several times; `break` to the outer or to the inner label; outputs after the call
+    def g_label_tailrec(self, ctx, ty, size):
+        r = self.rng
+        L = A.num(r.choice(["0", "1", "2", "3"]))
+        target = lambda: ("break", r.choice(["$oa", "$oa", "$ib"]))
+        inner = ("label", "$ib", ("comma", A.num(1), ("comma", r.choice([target(), A.pipe(ID_, target())]), A.num(2))))
+        after = r.choice([A.num(3), ("comma", A.num(3), ("break", "$oa")), A.string("after")])
+        shape = r.randrange(4)
+        if shape == 0:
+            # the label lives in a filter argument that is run after the last re-entry
+            body = ("if", ((("cmp", ">=", ID_, L), A.call("lg")),), A.pipe(("math", "+", ID_, A.num(1)), ("call", "lf", (A.call("lg"),))))
+            t = ("def", (("lf", ("lg",), body),), A.pipe(A.num(0), ("call", "lf", (("comma", inner, after),))))
+        elif shape == 1:
+            # the label lives in the body of the definition
+            body = ("if", ((("cmp", "<", ID_, L), A.pipe(("math", "+", ID_, A.num(1)), A.call("lf"))),),
+                    ("label", "$ib", ("comma", ID_, r.choice([("break", "$oa"), ("break", "$ib")]))))
+            t = ("comma", A.string("x"), ("comma", ("def", (("lf", (), body),), A.pipe(A.num(0), A.call("lf"))), A.string("y")))
+        elif shape == 2:
+            # a built-in loop: recurse re-enters its helper for every output
+            step = ("label", "$ib", ("if", ((("cmp", ">=", ID_, L), target()),), ("math", "+", ID_, A.num(1))))
+            t = ("comma", A.pipe(A.num(0), ("call", "recurse", (step,))), A.string("after"))
+        else:
+            # every iteration binds a label and breaks out of one bound by an earlier iteration's caller
+            body = ("label", "$ib", ("if", ((("cmp", ">=", ID_, L), ("comma", ID_, ("comma", target(), A.num(9)))),),
+                                      ("comma", ID_, A.pipe(("math", "+", ID_, A.num(1)), A.call("lf")))))
+            t = ("comma", ("def", (("lf", (), body),), A.pipe(A.num(0), A.call("lf"))), A.num(5))
+        t = ("arr", ("label", "$oa", t))
+        if ty == "a":
+            return t
+        return A.pipe(t, self.term(ctx.with_(tin="a"), ty, 2))
+
+    # compound paths whose parts fail independently: `.a?.b`, `.[]?[0]`, `.[0]?[1:]` ... on mixed data,
+    # run for values, for paths and on the left of updates (f[x]?[y] == f | .[x]? | .[y])
+    def g_opt_chain(self, ctx, ty, size):
+        r = self.rng
+        data = r.choice([
+            ("arr", comma_of([("arr", A.num(1)), A.num(2), ("arr", A.num(3)), A.string("s"), ("obj", ((A.string("a"), ("arr", A.num(4))),))])),
+            ("obj", ((A.string("a"), A.num(1)), (A.string("b"), ("obj", ((A.string("a"), ("arr", comma_of([A.num(5), A.num(6)]))),))))),
+            ("arr", comma_of([("arr", ("arr", comma_of([A.num(1), A.num(2)]))), ("arr", A.num(5)), A.call("null")])),
+        ])
+
+        def part():
+            k = r.randrange(5)
+            opt = r.random() < 0.5
+            if k == 0:
+                return (("range", None, None), opt)
+            if k == 1:
+                return (("index", A.num(r.choice(["0", "1"]))), opt)
+            if k == 2:
+                return (("index", A.string(r.choice(["a", "b"]))), opt)
+            if k == 3:
+                return (("range", A.num(0), A.num(1)), opt)
+            return (("index", ("comma", A.num(0), A.string("a"))), opt)
+        parts = tuple(part() for _ in range(r.choice([2, 2, 3])))
+        p = ("path", ID_, parts)
+        how = r.randrange(4)
+        if how == 0:
+            t = ("arr", ("try", p, A.string("E")))
+        elif how == 1:
+            t = ("arr", ("try", ("call", "path", (p,)), A.string("E")))
+        elif how == 2:
+            t = ("arr", ("try", ("update", p, r.choice([A.num(0), ("math", "+", ID_, A.num(1)) if False else ("arr", ID_)])), A.string("E")))
+        else:
+            t = ("arr", ("comma", ("try", p, A.string("E")), ("try", ("call", "first", (p,)), A.string("F"))))
+        t = A.pipe(data, t)
+        if ty == "a":
+            return t
+        return A.pipe(t, self.term(ctx.with_(tin="a"), ty, 2))
 
     # destructuring with nested patterns whose computed keys refer to outer variables, filter
     # arguments and earlier definitions, after other pattern variables have been bound
